@@ -73,12 +73,13 @@ def extract(g, X):
 
     def hexranges():
         b = X.fn_body(strl, "next_hex_byte")
-        tabs = X.hex_nibble_tables(b)
+        tabs = X.hex_nibble_tables(b, strl)
         rows = [X.ordered_by_key(r, [48, 65, 97]) for r, _, _ in tabs]
-        if len(rows) != 2 or rows[0] != rows[1]:
+        if len(rows) != 2 or rows[0] != rows[1] or not rows[0]:
             raise ValueError("nibble arms differ: %r" % (rows,))
-        end = [v for v, e in tabs[0][1] if re.fullmatch(r"return\s+Ok\(\s*None\s*\)\s*;?", e)]
-        end2 = [v for v, e in tabs[1][1] if re.fullmatch(r"self\.back\(\)\?\s*;\s*0", e)]
+        end = [k for k, o in tabs[0][1].items() if o.how == "return" and o.value == ("Ok", ("None",)) and not o.effects]
+        # at the same byte the second read steps back and supplies a 0
+        end2 = [k for k, o in tabs[1][1].items() if o.how == "value" and o.value == 0 and o.effects == ("self.back()?",)]
         if len(end) != 1 or end != end2:
             raise ValueError("terminator arms")
         sh = re.search(r"\(\s*\w+\s*<<\s*(\d+)\s*\)\s*\|\s*\w+", b)
@@ -101,11 +102,10 @@ def extract(g, X):
 
     # ---- font.rs ------------------------------------------------------------------------------------------------
     def maxcid():
-        m = re.search(r"const\s+MAX_CID\s*:\s*usize\s*=\s*(" + X.LIT + r")\s*;", font)
-        b = X.fn_body(font, "check_cid")
-        if not re.search(r"if\s+cid\s*>\s*MAX_CID\s*\{", b):
-            raise ValueError("check_cid comparison")
-        return str(X.lit(m.group(1)))
+        # check_cid is RUN around MAX_CID: it must accept MAX_CID - 1 and MAX_CID and reject MAX_CID + 1 (polarity of the
+        # test, early return vs else branch are immaterial)
+        mx = X.int_value(X.const_expr(font, "MAX_CID"))
+        return str(X.accepted_upto(font, "check_cid", mx))
     g.attempt([("font_max_cid", "N")], "font: font.rs:MAX_CID/check_cid", maxcid)
 
     def wnew():
@@ -130,18 +130,38 @@ def extract(g, X):
 
     def kws():
         b = X.fn_body(font, "parse_cmap")
-        arms = re.findall(r'b("(?:\\.|[^"\\])*")\s*=>\s*(loop|break)', b)
-        if [a[1] for a in arms] != ["loop", "loop", "break"]:
-            raise ValueError("parse_cmap arms %r" % (arms,))
-        # which loop is which: the one with three parses is the range loop
-        first_loop = b[b.index(arms[0][0]):b.index(arms[1][0])]
-        second_loop = b[b.index(arms[1][0]):b.index(arms[2][0])]
-        if first_loop.count("parse_with_lexer(") != 2 or second_loop.count("parse_with_lexer(") != 3:
-            raise ValueError("parse_cmap loop shapes")
-        last = re.search(r"if\s+\*\w+\s*<\s*(\d+)\s*\{\s*\*\w+\s*\+=\s*(\d+)\s*;", second_loop)
-        if last.group(2) != "1":
-            raise ValueError("range increment")
-        return cl(rust_str(arms[0][0])), cl(rust_str(arms[1][0])), cl(rust_str(arms[2][0])), last.group(1)
+        # the section keywords: byte-string patterns are disjoint, the order of the arms is immaterial.  The loop with two
+        # parses per entry is the bfchar loop, the one with three the bfrange loop; the keyword that leaves the scan: `break`
+        char = rng = end = None
+        rng_loop = None
+        for arm in X.match_arms(b, r"\w+\.as_slice\(\)"):
+            for pt in arm.pats:
+                if not re.fullmatch(r'b' + STR, pt) or arm.guard is not None:
+                    continue
+                if re.match(r"loop\b", arm.raw):
+                    n = arm.raw.count("parse_with_lexer(")
+                    if n == 2 and char is None:
+                        char = pt[1:]
+                    elif n == 3 and rng is None:
+                        rng, rng_loop = pt[1:], arm.raw
+                    else:
+                        raise ValueError("parse_cmap loop shapes")
+                elif re.fullmatch(r"break\s*;?", arm.expr) and end is None:
+                    end = pt[1:]
+                else:
+                    raise ValueError("parse_cmap arm %s" % pt)
+        if not (char and rng and end):
+            raise ValueError("parse_cmap arms")
+        # the last byte of the destination is incremented while it is below a bound: the statements after
+        # `let last = ….last_mut().unwrap();` are RUN for every value of *last; the increment happens exactly below the bound
+        lm = re.search(r"let\s+(\w+)\s*=\s*\w+\.last_mut\(\)\.unwrap\(\)\s*;", rng_loop)
+        _, blk_end = X.enclosing_block(rng_loop, lm.start())
+        t = X.tabulate(rng_loop[lm.end():blk_end], lm.group(1), font, scopes=[b], is_expr=False)
+        incs = set(v for v, o in t.items() if any(re.fullmatch(r"\*" + lm.group(1) + r" \+= 1;?", e) for e in o.effects))
+        others = [e for o in t.values() for e in o.effects if not re.fullmatch(r"\*" + lm.group(1) + r" \+= 1;?", e)]
+        if others or incs != set(range(0, len(incs))) or not incs:
+            raise ValueError("range increment: %r %r" % (sorted(incs)[-3:], others[:2]))
+        return cl(rust_str(char)), cl(rust_str(rng)), cl(rust_str(end)), str(len(incs))
     g.attempt([("font_kw_bfchar", "list N"), ("font_kw_bfrange", "list N"), ("font_kw_endcmap", "list N"), ("font_range_last_max", "N")],
               "font: font.rs:parse_cmap", kws)
 
@@ -151,34 +171,30 @@ def extract(g, X):
             return b
         return f
 
+    def hexspec(spec):
+        m = re.fullmatch(r"0(\d)([Xx])", spec)
+        return m.group(1), ("1" if m.group(2) == "X" else "0")
+
     def wcid():
-        b = X.fn_body(font, "write_cid")
-        m = re.search(r'write!\(\s*\w+\s*,\s*"(.)\{:0(\d)([Xx])\}(.)"\s*,\s*\w+\s*\)', b)
-        return str(ord(m.group(1))), m.group(2), ("1" if m.group(3) == "X" else "0"), str(ord(m.group(4)))
+        (c,) = X.fmt_calls(X.fn_body(font, "write_cid"))
+        (_, spec), = c["holes"]
+        (o,), (cl_,) = X.fmt_split(c)
+        return (str(o),) + hexspec(spec) + (str(cl_),)
     g.attempt([("font_wcid_open", "N"), ("font_wcid_digits", "N"), ("font_wcid_upper", "N"), ("font_wcid_close", "N")],
               "font: font.rs:write_cid", wcid)
 
     def wuni():
-        b = X.fn_body(font, "write_unicode")
-        lits = re.findall(r'write!\(\s*\w+\s*,\s*(' + STR + r')', b)
-        if len(lits) != 3:
-            raise ValueError("write_unicode literals %r" % (lits,))
-        m = re.fullmatch(r'"\{:0(\d)([Xx])\}"', lits[1])
-        o, c = rust_str(lits[0]), rust_str(lits[2])
-        if len(o) != 1 or len(c) != 1:
-            raise ValueError("delimiters")
-        return str(o[0]), m.group(1), ("1" if m.group(2) == "X" else "0"), str(c[0])
+        calls = X.fmt_calls(X.fn_body(font, "write_unicode"))
+        if len(calls) != 3 or calls[0]["holes"] or calls[2]["holes"] or len(calls[1]["holes"]) != 1 or X.fmt_split(calls[1]) != [[], []]:
+            raise ValueError("write_unicode literals")
+        (o,), (c,) = X.fmt_literal(calls[0]), X.fmt_literal(calls[2])
+        return (str(o),) + hexspec(calls[1]["holes"][0][1]) + (str(c),)
     g.attempt([("font_wuni_open", "N"), ("font_wuni_digits", "N"), ("font_wuni_upper", "N"), ("font_wuni_close", "N")],
               "font: font.rs:write_unicode", wuni)
 
     def wcmap():
         b = X.fn_body(font, "write_cmap")
-        toks = []
-        for m in re.finditer(r'(writeln|write)!\(\s*\w+\s*(?:,\s*(' + STR + r'))?\s*\)', b):
-            s = rust_str(m.group(2)) if m.group(2) else []
-            if m.group(1) == "writeln":
-                s = s + [10]
-            toks.append(s)
+        toks = [X.fmt_literal(c) for c in X.fmt_calls(b) if not c["holes"]]
         # order in the source: bfchar open, cid/unicode separator, line end, bfchar close,
         #                      bfrange open, lo/hi separator, array open, item separator, array close + line end, bfrange close
         if len(toks) != 10:
